@@ -77,7 +77,7 @@ def _root_local_of_key(k):
 
 class PathSens:
     def __init__(self, body, program, track=None, local_crates=("llfree", "llfree_eval", "replay"),
-                 max_states=60000, reset_edges=None, err_domains=None):
+                 max_states=60000, reset_edges=None, err_domains=None, keep_dead=False):
         self.body = body
         self.program = program
         self.local_crates = set(local_crates)
@@ -87,6 +87,8 @@ class PathSens:
         self.reset_edges = reset_edges or {}
         # callee name -> set of llfree::Error discriminants its Err results can carry
         self.err_domains = err_domains or {}
+        # keep_dead: facts about a temporary survive its StorageDead (sound in loop-free bodies, where a local is written once per path)
+        self.keep_dead = keep_dead
         self._build_static()
         self.nodes = {}      # node -> index
         self.node_list = []
@@ -389,7 +391,7 @@ class PathSens:
                 r, ps = self.canon_place(s["place"])
                 self._kill_prefix(env, r, ps)
             elif k == "dead":
-                if s["l"] not in self.alias:
+                if s["l"] not in self.alias and not self.keep_dead:
                     self._kill_local(env, s["l"], dead=True)
         t = blk["term"]
         k = t["k"]
